@@ -9,4 +9,5 @@ INVARIANT PhasedEqUnphased
 INVARIANT GtCover
 INVARIANT MinorAtMostHalf
 INVARIANT HetSymmetric
+INVARIANT DiploidIsInstance
 CHECK_DEADLOCK FALSE
